@@ -35,7 +35,7 @@ var (
 	flagTimeout  = flag.Int("solver-timeout", 30000, "per-query solver timeout ms")
 	flagEvidence = flag.String("evidence", "", "evidence file (default <verif>/evidence/<prop>.json)")
 	flagSMTLog   = flag.String("smtlog", "", "dump SMT-LIB traffic to this file (single harness)")
-	flagBudget   = flag.Int("budget", 0, "exploration time budget in seconds (default: 600 quick, 7200 thorough; $VERIF_BUDGET)")
+	flagBudget   = flag.Int("budget", 0, "exploration time budget in seconds (default: 1200 quick, 7200 thorough; $VERIF_BUDGET)")
 	flagSelftest = flag.Bool("selftest", false, "run engine self tests")
 	flagReplayF  = flag.String("replay", "", "re-run a stored replay json natively")
 )
@@ -698,7 +698,7 @@ func main() {
 		} else if *flagTier == "thorough" {
 			budget = 7200
 		} else {
-			budget = 600
+			budget = 1200
 		}
 	}
 	exploreDeadline = time.Now().Add(time.Duration(budget) * time.Second)
